@@ -45,6 +45,8 @@ def fmt(sig):
 def run(ctx):
     from .configtime import derived_values as _derived
     _derived(ctx, 'C09.R3', ('Recipe', 'RecipeStep', 'Plate', 'Container', 'Slicer', 'PlateSlicer'))
+    from .configtime import decisions_not_taken_on_display_values as _coarse
+    _coarse(ctx, 'C09.R3', ('Container', 'Plate', 'PlateSlicer', 'Recipe', 'RecipeStep'))
     from .configtime import refusals_not_rounded_for_display as _gate_digits
     _gate_digits(ctx, 'C09.R4', ('Recipe.get_substance_used',))
     from .configtime import no_shared_mutable_defaults as _mutdef
